@@ -115,6 +115,25 @@ func (e *Env) Fresh(hint string, s *smt.Sort) *smt.Term {
 	return smt.Const(fmt.Sprintf("%s!%d", sanitize(hint), e.n), s)
 }
 
+// FreshVal is Fresh for values: single-constructor datatypes (slices, strings, structs) are built from
+// fresh leaf constants, so that accessors fold away and queries stay in the bit-vector/array fragment.
+func (e *Env) FreshVal(hint string, s *smt.Sort) *smt.Term {
+	e.n++
+	return flatConst(fmt.Sprintf("%s!%d", sanitize(hint), e.n), s)
+}
+
+func flatConst(name string, s *smt.Sort) *smt.Term {
+	if s.Kind == smt.KData && len(s.Ctors) == 1 && s != IfaceSort {
+		c := s.Ctors[0]
+		args := make([]*smt.Term, len(c.Fields))
+		for i, f := range c.Fields {
+			args[i] = flatConst(name+"."+f.Name, f.Sort)
+		}
+		return smt.MkCtor(s, c, args...)
+	}
+	return smt.Const(name, s)
+}
+
 func (e *Env) heapVar(heap map[string]*smt.Term, name string, s *smt.Sort) *smt.Term {
 	if t, ok := heap[name]; ok {
 		return t
